@@ -14,7 +14,7 @@ CONSTANTS Types, Kinds,
           Variant    \* "code" | "PayloadUnchecked" | "SigValueUnchecked" | "AppendIgnored"
 
 \* regions every type is split into by the harness's independent parsers
-Regions == {"payload", "sigvalue", "sigcontainer", "append"}
+Regions == {"payload", "sigvalue", "sigcontainer", "append", "metadata"}
 
 \* what each format's signature covers, stated positively and conservatively
 Protected(t) ==
@@ -22,6 +22,9 @@ Protected(t) ==
     \* appended bytes: only where the platform's loader would still consume them and the format forbids them (PE overlay
     \* after the certificate table, cabinet trailer). A jar/zip or a script with trailing bytes carries no expectation.
     [] t \in {"pe-dll", "pe-exe", "cab"} -> {"payload", "sigvalue", "sigcontainer", "append"}
+    \* an MSI signed with the extended signature (relic's default) also binds the directory metadata of every stream and
+    \* storage: state bits, creation and modification time, class id
+    [] t = "msi" -> {"payload", "sigvalue", "sigcontainer", "metadata"}
     [] OTHER -> {"payload", "sigvalue", "sigcontainer"}
 
 VARIABLES typ, mutated, kind, verdict   \* verdict: "none" | "accept" | "reject"
@@ -37,6 +40,7 @@ Checked(r) ==
   /\ ~(Variant = "PayloadUnchecked" /\ r = "payload")
   /\ ~(Variant = "SigValueUnchecked" /\ r = "sigvalue")
   /\ ~(Variant = "AppendIgnored" /\ r = "append")
+  /\ ~(Variant = "MetadataUnchecked" /\ r = "metadata")
 
 Verify ==
   /\ verdict = "none"
